@@ -354,6 +354,242 @@ class Replay(object):
         return rec
 
 
+def rows_of(pa, U, origin, f, t1, t2):
+    n = pa.get_number_of_particles()
+    if n == 0:
+        return []
+    P = np.stack([full(pa, 'x'), full(pa, 'y'), full(pa, 'z')], axis=1)
+    rel = P - origin
+    ident, ca, cb, tag = (full(pa, q) for q in ('ident', 'ca', 'cb', 'tag'))
+    return [dict(id=int(ident[k]),
+                 s=int(round(float(np.dot(rel[k], f)) / U * FINE)),
+                 t1=int(round(float(np.dot(rel[k], t1)) / U * FINE)),
+                 t2=int(round(float(np.dot(rel[k], t2)) / U * FINE)),
+                 a=int(round(float(ca[k]))), b=int(round(float(cb[k]))),
+                 tag=int(tag[k])) for k in range(n)]
+
+
+class MultiRig(object):
+    """Several inlets and outlets ('lanes': one inlet + one outlet each, own
+    flow axis, reference point, zone lengths, dx, array names) on ONE fluid
+    array under ONE manager, wired as an Application does."""
+
+    def __init__(self, sc):
+        from pysph.base.utils import get_particle_array
+        from pysph.base.kernels import QuinticSpline
+        from pysph.sph.bc.inlet_outlet_manager import InletInfo, OutletInfo
+        from pysph.sph.wc.edac import EDACScheme
+        from pysph.sph.integrator import PECIntegrator
+        self.sc = sc
+        U = self.U = 2.0 ** sc['unit_exp']
+        dim = sc['dim']
+        fam = sc['family']
+        self.nextid = 1
+        Inlet = importlib.import_module('pysph.sph.bc.%s.inlet' % fam).Inlet
+        Outlet = importlib.import_module('pysph.sph.bc.%s.outlet' % fam).Outlet
+        mod = importlib.import_module(
+            'pysph.sph.bc.%s.simple_inlet_outlet' % fam)
+        h = 1.5 * max(l['dx'] for l in sc['multi']) * U
+        self.lanes = []
+        for l in sc['multi']:
+            f, t1, t2, nz = frame(dict(flow=l['flow'], dim=dim))
+            self.lanes.append(dict(sc=l, f=f, t1=t1, t2=t2, naxes=nz,
+                                   origin=np.array(l['origin'], dtype=float)))
+
+        def pos(L, rows):
+            return [L['origin'] + U * (r[0] * L['f'] + r[1] * L['t1'] +
+                                       r[2] * L['t2']) for r in rows]
+
+        def mk(name, P, tags):
+            n = len(P)
+            P = np.array(P, dtype=float).reshape((n, 3))
+            ids = np.arange(self.nextid, self.nextid + n)
+            self.nextid += n
+            pa = get_particle_array(
+                name=name, x=P[:, 0].copy(), y=P[:, 1].copy(),
+                z=P[:, 2].copy(), m=np.ones(n), h=h * np.ones(n),
+                rho=np.ones(n), u=np.ones(n))
+            pa.add_property('ident', type='long', data=ids)
+            pa.add_property('ca', data=Rig.val_a(ids))
+            pa.add_property('cb', data=Rig.val_b(ids))
+            if n:
+                full(pa, 'tag')[:] = tags
+            pa.align_particles()
+            return pa
+
+        def both(L, name):
+            loc = L['sc'][name]
+            ex = (L['sc'].get('ghosts') or {}).get(name, [])
+            return (pos(L, loc), [0] * len(loc),
+                    pos(L, [g[:3] for g in ex]), [int(g[3]) for g in ex])
+        self.pas = {}
+        fl = [both(L, 'fluid') for L in self.lanes]
+        self.fluid = mk(sc['fluid_name'],
+                        sum((x[0] for x in fl), []) + sum((x[2] for x in fl), []),
+                        sum((x[1] for x in fl), []) + sum((x[3] for x in fl), []))
+        self.pas[sc['fluid_name']] = self.fluid
+        for L in self.lanes:
+            for kind in ('inlet', 'outlet'):
+                p0, t0, p1, tg1 = both(L, kind)
+                L[kind] = mk(L['sc'][kind + '_name'], p0 + p1, t0 + tg1)
+                self.pas[L[kind].name] = L[kind]
+        kernel = QuinticSpline(dim=dim)
+        for L in self.lanes:
+            l = L['sc']
+            L['ii'] = InletInfo(
+                l['inlet_name'], normal=[float(-v) for v in L['f']],
+                refpoint=[float(v) for v in L['origin']],
+                has_ghost=bool(sc['ghost']), update_cls=Inlet)
+            L['oi'] = OutletInfo(
+                l['outlet_name'], normal=[float(v) for v in L['f']],
+                refpoint=[float(v) for v in
+                          L['origin'] + U * l['X'] * L['f']],
+                has_ghost=bool(sc['ghost']), update_cls=Outlet,
+                props_to_copy=None)
+        iinfo = [self.lanes[k]['ii'] for k in sc['in_order']]
+        oinfo = [self.lanes[k]['oi'] for k in sc['out_order']]
+        iom = mod.SimpleInletOutlet([sc['fluid_name']], iinfo, oinfo)
+        scheme = EDACScheme([sc['fluid_name']], [], dim=dim, rho0=1.0,
+                            c0=10.0, h=1.0, pb=0.0, nu=0.0,
+                            inlet_outlet_manager=iom)
+        iom.get_stepper(scheme, PECIntegrator)
+        iom.setup_iom(dim=dim, kernel=kernel)
+        iom.update_dx(self.lanes[0]['sc']['dx'] * U)
+        for L in self.lanes[1:]:
+            if L['sc']['dx'] != self.lanes[0]['sc']['dx']:
+                L['ii'].dx = L['sc']['dx'] * U      # a zone with its own spacing
+                L['oi'].dx = L['sc']['dx'] * U
+        if sc['ghost']:
+            for L in self.lanes:
+                for kind, flag in (('inlet', True), ('outlet', False)):
+                    g = iom.create_ghost(L[kind], inlet=flag)
+                    self.pas[g.name] = g
+        for pa in self.pas.values():
+            iom.add_io_properties(pa)
+        Rig.harmonize(self)
+        for L in self.lanes:
+            ptc = L['sc']['ptc']
+            names = sorted(self.fluid.properties.keys())
+            L['oi'].props_to_copy = None if ptc == 'none' else \
+                [n for n in names if not (ptc == 'nob' and n == 'cb')]
+        objs = iom.get_inlet_outlet(self.pas)
+        for j, k in enumerate(sc['in_order']):
+            self.lanes[k]['in_obj'] = objs[j]
+        for j, k in enumerate(sc['out_order']):
+            self.lanes[k]['out_obj'] = objs[len(iinfo) + j]
+
+    def state(self, L):
+        U = self.U
+        a = (U, L['origin'], L['f'], L['t1'], L['t2'])
+        return dict(inlet=rows_of(L['inlet'], *a),
+                    fluid=rows_of(self.fluid, *a),
+                    outlet=rows_of(L['outlet'], *a),
+                    nreal=[int(L['inlet'].num_real_particles),
+                           int(self.fluid.num_real_particles),
+                           int(L['outlet'].num_real_particles)])
+
+    def advect(self, dv, tv):
+        U = self.U
+        dim = self.sc['dim']
+        nl = len(self.lanes)
+
+        def move(pa, lane_of):
+            n = pa.get_number_of_particles()
+            if n == 0:
+                return
+            ident = full(pa, 'ident')
+            mv = np.zeros((n, 3))
+            for r, i in enumerate(ident):
+                L = self.lanes[lane_of(int(i))]
+                e1 = tv[int(i) % len(tv)] if dim >= 2 else 0
+                e2 = tv[(int(i) + 1) % len(tv)] if dim >= 3 else 0
+                mv[r] = U * (dv[int(i) % len(dv)] * L['f'] + e1 * L['t1'] +
+                             e2 * L['t2'])
+            full(pa, 'x')[:] += mv[:, 0]
+            full(pa, 'y')[:] += mv[:, 1]
+            full(pa, 'z')[:] += mv[:, 2]
+        for k, L in enumerate(self.lanes):
+            move(L['inlet'], lambda i, k=k: k)
+            move(L['outlet'], lambda i, k=k: k)
+        move(self.fluid, lambda i: i % nl)
+
+    def relabel(self, L):
+        inlet = L['inlet']
+        if inlet.get_number_of_particles() == 0:
+            return
+        fid = set(int(i) for i in full(self.fluid, 'ident'))
+        ident = full(inlet, 'ident')
+        for k in range(len(ident)):
+            if int(ident[k]) in fid:
+                new = self.nextid
+                self.nextid += 1
+                ident[k] = new
+                full(inlet, 'ca')[k] = Rig.val_a(new)
+                full(inlet, 'cb')[k] = Rig.val_b(new)
+
+    def call(self, kind, stage, L):
+        import pysph.sph.equation as E
+        E.group_counter = itertools.count()
+        obj = L['in_obj'] if kind == 'in' else L['out_obj']
+        obj.update(0.0, 0.125, stage)
+
+
+def run_multi(sc):
+    """One trace per lane; the calls of the other lanes appear in it as
+    kind 'other' (they may change the shared fluid array only)."""
+    try:
+        rig = MultiRig(sc)
+    except Exception as ex:
+        return [dict(id=l['id'], error='%s: %s' % (type(ex).__name__, ex),
+                     tb=traceback.format_exc()[-1200:]) for l in sc['multi']]
+    calls = [[] for _ in rig.lanes]
+    errtext = None
+    for op in sc['ops']:
+        if op[0] == 'adv':
+            rig.advect(op[1], op[2])
+            continue
+        kind, stage, k = op[0], int(op[1]), int(op[2])
+        before = [rig.state(L) for L in rig.lanes]
+        try:
+            rig.call(kind, stage, rig.lanes[k])
+            ok = True
+            after = [rig.state(L) for L in rig.lanes]
+        except Exception as ex:
+            ok = False
+            after = before
+            errtext = '%s: %s | %s' % (type(ex).__name__, ex,
+                                      traceback.format_exc()[-600:])
+        for j in range(len(rig.lanes)):
+            calls[j].append(dict(kind=kind if j == k else 'other',
+                                 stage=stage, ok=ok, before=before[j],
+                                 after=after[j]))
+        if not ok:
+            break
+        if kind == 'in':
+            rig.relabel(rig.lanes[k])
+    out = []
+    U = rig.U
+    for j, L in enumerate(rig.lanes):
+        l = L['sc']
+        rec = dict(
+            id=l['id'],
+            g=dict(Lin=l['Lin'] * FINE, X=l['X'] * FINE, Lout=l['Lout'] * FINE,
+                   copyq=l['ptc'] != 'nob', active=[2]),
+            code=dict(Lin=int(round(L['ii'].length / U * FINE)),
+                      Lout=int(round(L['oi'].length / U * FINE)),
+                      LinM=int(round(L['ii'].length / U * MICRO)),
+                      LoutM=int(round(L['oi'].length / U * MICRO))),
+            mpf=MICRO // FINE,
+            code_len_units=[L['ii'].length / U, L['oi'].length / U],
+            impl_active=[list(L['in_obj'].active_stages),
+                         list(L['out_obj'].active_stages)],
+            naxes=L['naxes'], fine=FINE, calls=calls[j])
+        if errtext:
+            rec['errtext'] = errtext
+        out.append(rec)
+    return out
+
+
 def run(sc):
     """Returns the list of trace records of a scenario.  A scenario with a
     'seq' key holds several histories with the SAME array names and
@@ -361,6 +597,8 @@ def run(sc):
     first half of the history of pair k-1 has run, every pair stays alive,
     and the second halves run once all pairs exist - anything an inlet or
     outlet keeps per process / per array name instead of per object shows."""
+    if 'multi' in sc:
+        return run_multi(sc)
     if 'seq' not in sc:
         rp = Replay(sc)
         rp.advance(len(sc['ops']))
@@ -376,6 +614,8 @@ def run(sc):
 
 
 def ids_of(sc):
+    if 'multi' in sc:
+        return [s['id'] for s in sc['multi']]
     return [s['id'] for s in sc['seq']] if 'seq' in sc else [sc['id']]
 
 
